@@ -35,6 +35,7 @@ func init() {
 			{"pkg/pipeline/service.go", "Service", "AddProcessor", "pipeline.AddProcessor"},
 			{"pkg/pipeline/service.go", "Service", "RemoveProcessor", "pipeline.RemoveProcessor"},
 			{"pkg/pipeline/service.go", "Service", "Delete", "pipeline.Delete"},
+			{"pkg/pipeline/service.go", "Service", "UpdateStatus", "pipeline.UpdateStatus"},
 			{"pkg/connector/service.go", "Service", "Create", "connector.Create"},
 			{"pkg/connector/service.go", "Service", "Update", "connector.Update"},
 			{"pkg/connector/service.go", "Service", "AddProcessor", "connector.AddProcessor"},
@@ -111,11 +112,21 @@ func init() {
 			{"keepPlCreate", keep("pipeline.Create")}, {"keepPlDelete", keep("pipeline.Delete")},
 			{"keepCnCreate", keep("connector.Create")}, {"keepCnDelete", keep("connector.Delete")},
 			{"keepPrCreate", keep("processor.Create")}, {"keepPrDelete", keep("processor.Delete")},
+			{"keepPlStatus", keep("pipeline.UpdateStatus")},
 			{"cnOrchOldPlugin", oldPluginFlag},
 			{"updConnCopies", prov.updConnCopies}, {"condExported", prov.condExported},
 			{"condUpdated", prov.condUpdated}, {"condRecreates", prov.condRecreates},
 		} {
 			b.P("def %s : Bool := %s", kv[0], kv[1])
+		}
+
+		// which instance fields the connector methods used by the import's update action assign
+		csvc := files["pkg/connector/service.go"]
+		for _, fn := range []string{"Update", "AddProcessor", "RemoveProcessor"} {
+			fs := assignedFields(findFunc(csvc, "Service", fn), "conn")
+			b.P("/-- instance fields connector.Service.%s assigns (anywhere in its body) -/", fn)
+			b.P("def connector%sAssigns : List String := %s", fn, leanStrList(fs))
+			summary["Ctl.connector"+fn+"Assigns"] = fs
 		}
 
 		// orchestrator guards and call orders
@@ -180,6 +191,14 @@ func init() {
 			b.P("def calls%s : List String := %s", strings.ToUpper(fn[:1])+fn[1:], leanStrList(cs))
 			summary["Ctl.calls."+fn] = cs
 		}
+		// what Diff.computeHash digests
+		hk, cf := hashInputs(plan)
+		b.P("/-- fields of the value `Diff.computeHash` marshals, and the fields of each `Change` that reach it")
+		b.P("(all JSON-visible fields of Change when `d.Changes` is passed as it is) -/")
+		b.P("def hashFields : List String := %s", leanStrList(hk))
+		b.P("def hashChangeFields : List String := %s", leanStrList(cf))
+		summary["Ctl.hashFields"] = hk
+		summary["Ctl.hashChangeFields"] = cf
 		// the TOCTOU re-read of the running status must come before the authorisation gate
 		total, before := isRunningVsGate(findFunc(plan, "Service", "ApplyPlanLive"))
 		b.P("/-- `isRunning` reads in ApplyPlanLive: how many there are, and how many of them precede the")
@@ -450,6 +469,12 @@ func isMutation(st ast.Stmt) bool {
 			if id, ok := ce.Fun.(*ast.Ident); ok && id.Name == "delete" && len(ce.Args) > 0 && strings.HasPrefix(src(ce.Args[0]), "s.") {
 				return true
 			}
+			// <instance>.SetStatus(…) mutates the instance
+			if se, ok := ce.Fun.(*ast.SelectorExpr); ok && se.Sel.Name == "SetStatus" {
+				if id, ok := se.X.(*ast.Ident); ok && id.Name != "s" {
+					return true
+				}
+			}
 		}
 	}
 	return false
@@ -576,6 +601,98 @@ func gateCalls(fd *ast.FuncDecl, vocab []string) []string {
 		return true
 	})
 	return out
+}
+
+// assignedFields: distinct fields X of `<recv>.X = …` / `<recv>.X, … = …` assignments in a function.
+func assignedFields(fd *ast.FuncDecl, recv string) []string {
+	var out []string
+	seen := map[string]bool{}
+	ast.Inspect(fd.Body, func(n ast.Node) bool {
+		as, ok := n.(*ast.AssignStmt)
+		if !ok || as.Tok != token.ASSIGN {
+			return true
+		}
+		for _, l := range as.Lhs {
+			if se, ok := l.(*ast.SelectorExpr); ok && src(se.X) == recv && !seen[se.Sel.Name] {
+				seen[se.Sel.Name] = true
+				out = append(out, se.Sel.Name)
+			}
+		}
+		return true
+	})
+	return out
+}
+
+// hashInputs: the keys of the `hashable{…}` literal in Diff.computeHash and the Change fields that
+// reach it: if the Changes value is `d.Changes` itself, every field of struct Change that JSON
+// marshals; if the function rebuilds the changes (a `Change{…}` literal), the keys of that literal.
+func hashInputs(plan *ast.File) (hashKeys, changeFields []string) {
+	fd := findFunc(plan, "Diff", "computeHash")
+	var changesExpr ast.Expr
+	ast.Inspect(fd.Body, func(n ast.Node) bool {
+		cl, ok := n.(*ast.CompositeLit)
+		if !ok {
+			return true
+		}
+		if id, ok := cl.Type.(*ast.Ident); ok && id.Name == "hashable" {
+			for _, e := range cl.Elts {
+				kv := e.(*ast.KeyValueExpr)
+				hashKeys = append(hashKeys, src(kv.Key))
+				if src(kv.Key) == "Changes" {
+					changesExpr = kv.Value
+				}
+			}
+		}
+		return true
+	})
+	if changesExpr == nil {
+		panic("computeHash: hashable{… Changes: …} not found")
+	}
+	if src(changesExpr) == "d.Changes" {
+		for _, d := range plan.Decls {
+			gd, ok := d.(*ast.GenDecl)
+			if !ok || gd.Tok != token.TYPE {
+				continue
+			}
+			for _, sp := range gd.Specs {
+				ts := sp.(*ast.TypeSpec)
+				st, ok := ts.Type.(*ast.StructType)
+				if ts.Name.Name != "Change" || !ok {
+					continue
+				}
+				for _, fl := range st.Fields.List {
+					if fl.Tag != nil && strings.Contains(fl.Tag.Value, "json:\"-\"") {
+						continue
+					}
+					for _, n := range fl.Names {
+						changeFields = append(changeFields, n.Name)
+					}
+				}
+			}
+		}
+		return hashKeys, changeFields
+	}
+	// rebuilt changes: keys of the Change{…} literal(s) in the function
+	seen := map[string]bool{}
+	ast.Inspect(fd.Body, func(n ast.Node) bool {
+		cl, ok := n.(*ast.CompositeLit)
+		if !ok {
+			return true
+		}
+		if id, ok := cl.Type.(*ast.Ident); ok && id.Name == "Change" {
+			for _, e := range cl.Elts {
+				if kv, ok := e.(*ast.KeyValueExpr); ok && !seen[src(kv.Key)] {
+					seen[src(kv.Key)] = true
+					changeFields = append(changeFields, src(kv.Key))
+				}
+			}
+		}
+		return true
+	})
+	if len(changeFields) == 0 {
+		panic("computeHash: cannot tell which Change fields are hashed (Changes: " + src(changesExpr) + ")")
+	}
+	return hashKeys, changeFields
 }
 
 // isRunningVsGate counts the isRunning calls of ApplyPlanLive and those of them that come (in
